@@ -152,7 +152,7 @@ static void part2() {
      Use a = use(0, "1"); a.more = {"2"}; Use b = use(0, "3"); b.more = {"4"}; setups.push_back({c, {a, b, use(0, "5"), use(1, nullptr)}}); }
    { Cfg c; Arg l = mkarg('l', "list", VECSTR); l.card = 2; l.cardA = 2; Arg n = mkarg('n', "nums", VECINT); n.card = 3; n.cardA = 1; n.cardB = 3; c.args = {l, n, mkarg('v', "verbose", FLAG)};
      setups.push_back({c, {use(0, "a,b"), use(0, "c"), use(1, "1,2"), use(1, "3"), use(2, nullptr)}}); }
-   const int depth = vf::thorough() ? 3 : 2;
+   const int depth = vf::deep() ? 4 : vf::thorough() ? 3 : 2;
    for (auto& su : setups) {
       const Cfg& cfg = su.first; const std::vector<Use>& alpha = su.second;
       for (int d = 0; d <= depth; ++d) {
